@@ -47,19 +47,26 @@ func (l *IDNNotNFC) CheckApplies(c *x509.Certificate) bool {
 }
 
 func (l *IDNNotNFC) Execute(c *x509.Certificate) *lint.LintResult {
+	sawDecodeError := false
 	for _, dns := range c.DNSNames {
 		labels := strings.Split(dns, ".")
 		for _, label := range labels {
 			if util.HasXNLabelPrefix(label) {
 				unicodeLabel, err := util.IdnaToUnicode(label)
 				if err != nil {
-					return &lint.LintResult{Status: lint.NA}
+					// Keep judging the remaining labels and names: a label
+					// that is not NFC is an error wherever it sits in the list.
+					sawDecodeError = true
+					continue
 				}
 				if !norm.NFC.IsNormalString(unicodeLabel) {
 					return &lint.LintResult{Status: lint.Error}
 				}
 			}
 		}
+	}
+	if sawDecodeError {
+		return &lint.LintResult{Status: lint.NA}
 	}
 	return &lint.LintResult{Status: lint.Pass}
 }
